@@ -65,6 +65,7 @@ def main() -> int:
         mod = runner.load_prop(argv[1])
         if hasattr(mod, "setup"):
             mod.setup("quick", build=False)
+        runner.limit_memory()
         with open(argv[2], encoding="utf-8") as f:
             case = json.load(f)
         res = runner.run_one(mod, case, 3600.0)
